@@ -44,9 +44,57 @@ def check_d1(chk, m):
             pass
         else:
             bad.append(u)
-    chk.ob("D1.input-only-via-cursor", "rf_wavheader_decode parameter %d" % pidx, not bad,
-           "the input pointer flows only into rf_pack_init" + ("" if not bad else "; also used by %s at %s" % (bad[0].op, bad[0].loc)),
-           fn.loc, fn.name)
+    direct_ok = False
+    if bad and all(u.op == "load" or (u.op == "call" and (u.callee or "").startswith(("llvm.memcpy", "memcpy"))) for u in bad):
+        # the decoder also reads the input directly: every such read must lie below a length the path has already compared the
+        # size argument with (one bounds check covering a fixed prefix)
+        szidx = [i for i, a in enumerate(fn.args) if a.ty == "i32"]
+        direct_ok = bool(szidx)
+        n_direct = 0
+        worst = None
+        for p in paths.enumerate_paths(fn, m, call_effects=wav.EFFECTS) if szidx else []:
+            if paths.is_assert_fail_path(p):
+                continue
+            for k, e in enumerate(p.events):
+                src = e.ptr if e.kind == "load" else (e.val if e.kind == "memcpy" else None)
+                if src is None or e.kind == "memcpy" and ptr_parts(e.ptr)[0] == ("arg", pidx):
+                    if e.kind == "memcpy" and ptr_parts(e.ptr)[0] == ("arg", pidx):
+                        direct_ok, worst = False, "the input is written at %s" % e.inst.loc
+                    continue
+                root, off, var = ptr_parts(src)
+                if root != ("arg", pidx):
+                    continue
+                n_direct += 1
+                size = e.size if e.kind == "load" else (e.extra[2] if e.extra is not None and e.extra[0] == "c" else None)
+                if var or size is None:
+                    direct_ok, worst = False, "a direct read at a variable offset / of a variable length at %s" % e.inst.loc
+                    continue
+                mine = [cd for cd, pos in zip(p.conds, p.cond_pos) if pos <= k and
+                        not [x for x in paths.subexprs(cd[0]) if x[0] in ("ld", "call", "sym") or (x[0] == "arg" and x[1] != szidx[-1])]
+                        and paths.contains(cd[0], lambda x: x == ("arg", szidx[-1]))]
+                least = None
+                for v in range(0, 4097):
+                    try:
+                        if all(paths.cond_holds(cd, {("arg", szidx[-1]): v}) for cd in mine):
+                            least = v
+                            break
+                    except paths.NoValue:
+                        break
+                if least is None or least < off + size:
+                    direct_ok = False
+                    worst = "bytes %d..%d of the input are read at %s on a path that has only established a length of %s" % (
+                        off, off + size - 1, e.inst.loc, least)
+        if direct_ok and n_direct:
+            chk.ob("D1.input-only-via-cursor", "rf_wavheader_decode parameter %d" % pidx, True,
+                   "besides rf_pack_init the input is read directly %d time(s), each below a length the path has compared the size "
+                   "argument with" % n_direct, fn.loc, fn.name)
+        elif worst:
+            chk.ob("D1.input-only-via-cursor", "rf_wavheader_decode parameter %d" % pidx, False, worst, fn.loc, fn.name)
+            direct_ok = True
+    if not direct_ok:
+        chk.ob("D1.input-only-via-cursor", "rf_wavheader_decode parameter %d" % pidx, not bad,
+               "the input pointer flows only into rf_pack_init" + ("" if not bad else "; also used by %s at %s" % (bad[0].op, bad[0].loc)),
+               fn.loc, fn.name)
     # the local rf_pack_t is opaque
     n = 0
     for f in m.defined_functions():
@@ -254,6 +302,11 @@ def check_d2_d3(chk, m):
                 total += it.length_expr[2]
         mins.append(total)
         # D3 untrusted lengths
+        # (a member may also be filled from bytes read directly: the stored expression then stands for the member)
+        res2field = dict(res2field)
+        for e in p.events:
+            if e.kind == "store" and wav.field_name(e.ptr, fn, m, wh) and strip_casts(e.val)[0] not in ("c", "null", "call"):
+                res2field.setdefault(strip_casts(e.val), wav.field_name(e.ptr, fn, m, wh))
         for k, e in enumerate(p.events):
             if e.kind == "call" and e.callee == "rf_unpack_bytes" and e.args[2][0] != "c":
                 L = wav.normalise(e.args[2], res2field, fn, m, wh)
